@@ -146,6 +146,9 @@ def eventAsJSON(event: LogEvent) -> str:
         return objectSaveHook(unencodable)
 
     flattenEvent(event)
+    if isinstance(event.get("log_format"), bytes):
+        # formatEvent reads a bytes format as UTF-8; save it readable that way.
+        event = dict(event, log_format=event["log_format"].decode("utf-8"))
     return dumps(event, default=default, skipkeys=True)
 
 
